@@ -502,6 +502,17 @@ SPEC = [
     ('irregular_t_store', 'conversion_utils.py', 'unstructured_io_thread_func', ('assign', 't_store', 0), 'Nat'),
     # sgz_xarray.py
     ('xarray_int_key', 'sgz_xarray.py', 'SeismicZfpBackendArray._raw_indexing_method', ('assign', 'k', 0), 'Int'),
+    # dispatch conditions: which loader / path a call takes
+    ('dispatch_inline', 'read.py', 'SgzReader.read_inline', ('ifcall', 'read_and_decompress_il_set', 0), 'Prop'),
+    ('dispatch_crossline', 'read.py', 'SgzReader.read_crossline', ('ifcall', 'read_and_decompress_xl_set', 0), 'Prop'),
+    ('dispatch_zslice', 'read.py', 'SgzReader.read_zslice', ('ifcall', 'read_and_decompress_zslice_set', 0), 'Prop'),
+    ('dispatch_zslice_adv', 'read.py', 'SgzReader.read_zslice', ('ifcall', 'read_and_decompress_zslice_set_adv', 0), 'Prop'),
+    ('dispatch_subvolume', 'read.py', 'SgzReader.read_subvolume', ('ifcall', 'read_and_decompress_chunk_range', 0), 'Prop'),
+    ('dispatch_trace2d', 'read.py', 'SgzReader.get_trace', ('ifcall', 'read_and_decompress_trace_range', 1), 'Prop'),
+    ('dispatch_crop', 'cropping.py', 'SgzCropper.write_cropped_file_by_indexes', ('ifcall', 'read_chunk_range', 0), 'Prop'),
+    ('dispatch_producer', 'conversion_utils.py', 'seismic_file_producer', ('ifcall', 'put', 0), 'Prop'),
+    ('dispatch_numpy', 'conversion_utils.py', 'numpy_producer', ('ifcall', 'put', 0), 'Prop'),
+    ('dispatch_2d', 'conversion_utils.py', 'seismic_file_producer_2d', ('ifcall', 'put', 0), 'Prop'),
     # loader.py, 2D
     ('trace_range_offset', 'loader.py', 'SgzLoader2d.read_and_decompress_trace_range', ('assign', 'block_offset', 0), 'Nat'),
     ('trace_range_length', 'loader.py', 'SgzLoader2d.read_and_decompress_trace_range', ('callarg', '_get_compressed_bytes', 0, 1), 'Nat'),
